@@ -137,9 +137,11 @@ def run_pipeline(focus='amounts'):
         ok = ok and stats['transfers_in'] == 0 and stats['transfers_out'] == 0 and stats['investment_total'] == 0
         ok = ok and stats['cash_flow'] == neg - pos
         bm = stats['by_merchant']
-        ok = ok and sorted(bm) == ['Coffee Bar', 'General'] and bm['General']['count'] == 2 and bm['Coffee Bar']['count'] == 1
-        ok = ok and bm['General']['category'] == 'Shopping' and bm['Coffee Bar']['category'] == 'Unknown'
-        ok = ok and sorted(bm['General']['payments']) == sorted([amounts[0], amounts[2]]) and bm['Coffee Bar']['payments'] == [amounts[1]]
+        # two merchants: the one the [General] rule names (both AMAZON rows) and the unclassified one (how its display name is derived is C01's subject)
+        shop = [m for m in bm.values() if m['category'] == 'Shopping']
+        unk = [m for m in bm.values() if m['category'] == 'Unknown']
+        ok = ok and len(bm) == 2 and len(shop) == 1 and len(unk) == 1 and 'General' in bm and shop[0]['count'] == 2 and unk[0]['count'] == 1
+        ok = ok and sorted(shop[0]['payments']) == sorted([amounts[0], amounts[2]]) and unk[0]['payments'] == [amounts[1]]
         # each source's cells were normalised under ITS OWN decimal convention
         want = {0: [ref_amount_text(bodies[0], ',' if cd0 else '.')[1], ref_amount_text(bodies[1], ',' if cd0 else '.')[1]],
                 1: [ref_amount_text(bodies[2], ',' if cd1 else '.')[1]]}
